@@ -312,13 +312,16 @@ func newQueryPlan(ctx context.Context, store storage.Store, stm *semantic.Statem
 func (p *queryPlan) processClause(ctx context.Context, cls *semantic.GraphClause, lo *storage.LookupOptions) (bool, error) {
 	// This method decides how to process the clause based on the current
 	// list of bindings solved and data available.
-	if cls.Specificity() == 3 {
+	// A fully specified clause without aliases binds nothing: it only checks
+	// that the triple exists. With aliases it binds its constants and is
+	// processed like any other clause below.
+	if cls.Specificity() == 3 && !cls.HasAlias() {
 		tracer.V(3).Trace(p.tracer, func() *tracer.Arguments {
 			return &tracer.Arguments{
 				Msgs: []string{"Clause is fully specified"},
 			}
 		})
-		if cls.Optional && !cls.HasAlias() {
+		if cls.Optional {
 			tracer.V(3).Trace(p.tracer, func() *tracer.Arguments {
 				return &tracer.Arguments{
 					Msgs: []string{fmt.Sprintf("Processing optional clause of specificity 3: %v", cls)},
@@ -330,14 +333,8 @@ func (p *queryPlan) processClause(ctx context.Context, cls *semantic.GraphClause
 		if err != nil {
 			return false, err
 		}
-		b, tbl, err := simpleExist(ctx, p.grfs, cls, t, p.tracer)
-		if err != nil {
-			return false, err
-		}
-		if err := p.tbl.AppendTable(tbl); err != nil {
-			return b, err
-		}
-		return b, nil
+		b, _, err := simpleExist(ctx, p.grfs, cls, t, p.tracer)
+		return b, err
 	}
 
 	exist, total := 0, 0
